@@ -97,6 +97,13 @@ def parse_directive(text, tline):
     return d
 
 
+import threading
+_tls = threading.local()   # per thread (./check expands several units concurrently):
+#   .anchor_map      {fn: {section head: [block ordinal, statement index]}} recorded on the pristine tree
+#   .fallback_notes  sections of the current function that were placed by statement position
+_record_anchors = None    # set to a dict by `vgen.py --record-anchors` (single-threaded)
+
+
 LOSABLE = ("loop", "loopbody", "beforeloop", "afterloop", "before", "after", "closure", "inline", "desugar_for", "hoist", "rewrite")
 
 
@@ -236,9 +243,30 @@ def _apply_section(sec, head, it, data, s0, e0, what, edits, drop, tags_box, ret
             raise GenError(f"template line {tl}: bad anchor syntax")
         nth = int(m.group(2)) if m.group(2) else None
         anchor = m.group(1).replace("<NL>", "\n")
-        off = s0 + find_anchor(data[s0:e0], anchor, nth, what)
-        if kw == "after":
-            off += len(anchor.encode())
+        try:
+            off = s0 + find_anchor(data[s0:e0], anchor, nth, what)
+            if kw == "after":
+                off += len(anchor.encode())
+            if _record_anchors is not None:
+                # remember which statement (block ordinal, index) the anchor sits in: the structural fallback used when a
+                # later refactoring changes the anchor text but keeps the statement structure
+                probe = off if kw == "before" else off - 1
+                inner = None
+                for st in it.get("stmts", []):
+                    a_, b_ = st["span"]
+                    if a_ <= probe < b_ and (inner is None or (b_ - a_) < (inner["span"][1] - inner["span"][0])):
+                        inner = st
+                if inner is not None:
+                    _record_anchors.setdefault(what, {})[head] = [inner["block"], inner["idx"]]
+        except GenError:
+            ent = getattr(_tls, "anchor_map", {}).get(what, {}).get(head)
+            st = None
+            if ent is not None:
+                st = next((x for x in it.get("stmts", []) if x["block"] == ent[0] and x["idx"] == ent[1]), None)
+            if st is None:
+                raise
+            off = st["span"][0] if kw == "before" else st["span"][1]
+            _tls.fallback_notes.append(f"section '{head}' placed by statement position (block {ent[0]}, statement {ent[1]}): its text anchor is gone")
         if not ghost_only(body):
             raise GenError(f"template line {tl}: spliced text is not ghost-only: {body.strip()[:80]}")
         edits.append(Edit(off, off, ("\n" if kw == "before" else " ") + body + "\n", "ins:" + kw, tl))
@@ -370,6 +398,7 @@ def expand_fn(repo, d, log, force_stub=()):
     ret_name = None
     skipped = []
     tags_box, ret_box = [[]], [None]
+    _tls.fallback_notes = []
     for sec_no, sec in enumerate(d["sections"]):
         head = sec["head"]
         optional = head.startswith("?")
@@ -395,6 +424,8 @@ def expand_fn(repo, d, log, force_stub=()):
             e_.optional = optional
     tags = tags_box[0]
     ret_name = ret_box[0]
+    if not stub:
+        degraded += list(_tls.fallback_notes)
     # X4 (automatic): `<slice>.iter().any|all|find|rposition(closure)` is routed through the trusted wrappers
     # crate::slice_any / slice_all / slice_find / slice_rposition (vstd cannot give these overridden methods a specification)
     if "nowrap" not in d["flags"] and not stub:
@@ -651,6 +682,10 @@ def expand(repo, template_path, out_path, include_dirs=(), force_stub=()):
             break
         text = text2
     log = []
+    _tls.anchor_map = {}
+    amp = re.sub(r"\.rs$", ".anchors.json", template_path)
+    if os.path.exists(amp) and _record_anchors is None:
+        _tls.anchor_map = json.load(open(amp))
     fns, types, others = [], [], []
     out = []  # (bytes, origin)
     pos = 0
@@ -743,6 +778,15 @@ def map_offset(meta, off):
 
 
 if __name__ == "__main__":
+    if sys.argv[1] == "--record-anchors":
+        # vgen.py --record-anchors <pristine repo> <template>...   writes <template>.anchors.json
+        for tmpl in sys.argv[3:]:
+            _record_anchors = {}
+            expand(sys.argv[2], tmpl, "/dev/null" if False else os.path.join(os.environ.get("TMPDIR", "/tmp"), "vgen_anchors_scratch.rs"))
+            with open(re.sub(r"\.rs$", ".anchors.json", tmpl), "w") as f:
+                json.dump(_record_anchors, f, indent=1, sort_keys=True)
+            print(tmpl, sum(len(v) for v in _record_anchors.values()), "anchors recorded")
+        sys.exit(0)
     repo, tmpl, out = sys.argv[1:4]
     try:
         m = expand(repo, tmpl, out)
